@@ -211,3 +211,65 @@ impl<'a> Fields<'a> {
         self.get(k).parse().unwrap()
     }
 }
+
+// ------------------------------------------------------------------ counting allocator (C05, C10)
+
+use std::alloc::{GlobalAlloc, Layout, System};
+use std::sync::atomic::{AtomicUsize, Ordering};
+
+pub struct CountingAlloc;
+
+static LIVE: AtomicUsize = AtomicUsize::new(0);
+static PEAK: AtomicUsize = AtomicUsize::new(0);
+static LARGEST: AtomicUsize = AtomicUsize::new(0);
+
+unsafe impl GlobalAlloc for CountingAlloc {
+    unsafe fn alloc(&self, layout: Layout) -> *mut u8 {
+        let p = System.alloc(layout);
+        if !p.is_null() {
+            let now = LIVE.fetch_add(layout.size(), Ordering::Relaxed) + layout.size();
+            PEAK.fetch_max(now, Ordering::Relaxed);
+            LARGEST.fetch_max(layout.size(), Ordering::Relaxed);
+        }
+        p
+    }
+    unsafe fn dealloc(&self, ptr: *mut u8, layout: Layout) {
+        System.dealloc(ptr, layout);
+        LIVE.fetch_sub(layout.size(), Ordering::Relaxed);
+    }
+    unsafe fn realloc(&self, ptr: *mut u8, layout: Layout, new_size: usize) -> *mut u8 {
+        let p = System.realloc(ptr, layout, new_size);
+        if !p.is_null() {
+            if new_size >= layout.size() {
+                let d = new_size - layout.size();
+                let now = LIVE.fetch_add(d, Ordering::Relaxed) + d;
+                PEAK.fetch_max(now, Ordering::Relaxed);
+            } else {
+                LIVE.fetch_sub(layout.size() - new_size, Ordering::Relaxed);
+            }
+            LARGEST.fetch_max(new_size, Ordering::Relaxed);
+        }
+        p
+    }
+}
+
+#[global_allocator]
+static GLOBAL: CountingAlloc = CountingAlloc;
+
+/// Bytes currently allocated by the whole harness process.
+pub fn heap_live() -> usize {
+    LIVE.load(Ordering::Relaxed)
+}
+
+/// Start a measurement: the peak is reset to the current live size; returns that baseline.
+pub fn heap_mark() -> usize {
+    let live = LIVE.load(Ordering::Relaxed);
+    PEAK.store(live, Ordering::Relaxed);
+    LARGEST.store(0, Ordering::Relaxed);
+    live
+}
+
+/// Peak live bytes above the baseline since `heap_mark`, and the largest single request.
+pub fn heap_peak_since(baseline: usize) -> (usize, usize) {
+    (PEAK.load(Ordering::Relaxed).saturating_sub(baseline), LARGEST.load(Ordering::Relaxed))
+}
